@@ -5,6 +5,8 @@ its original in function identity); meta.json then gets "manifests_at_head": fal
 import glob, json, os, subprocess
 VERIF = os.path.dirname(os.path.dirname(os.path.abspath(__file__)))
 WT = os.environ.get("SEED_WT", "/tmp/seedtest_wt")
+if not os.path.isdir(WT):
+    subprocess.run("git -C /repo worktree add -q --detach %s main" % WT, shell=True)  # scratch worktree: remove it when done
 def sh(c, **kw): return subprocess.run(c, shell=True, capture_output=True, text=True, **kw)
 sh("git -C %s checkout -q -- . ; git -C %s checkout -q --detach main" % (WT, WT))
 bad = []
